@@ -171,6 +171,30 @@ def method(eng, st, recv, meth, node, guard):
         n = ho.shape[0]
         st.heap[recv.base] = ho.replace(arr=z3.Store(ho.arr, n, sx.coerce(v, ho.elem)), shape=(n + 1,))
         return PyObj("none")
+    if meth == "add" and isinstance(recv, Ref) and eng.is_set(st, recv):
+        USED.add("set.add")
+        ho = st.heap[recv.base]
+        x = to_z3(args[0])
+        if recv.prefix:
+            i = recv.prefix[0]
+            st.heap[recv.base] = ho.replace(arr=z3.Store(ho.arr, i, z3.Store(z3.Select(ho.arr, i), x, z3.BoolVal(True))))
+        else:
+            st.heap[recv.base] = ho.replace(arr=z3.Store(ho.arr, x, z3.BoolVal(True)))
+        return PyObj("none")
+    if meth == "pop" and isinstance(recv, Ref) and st.heap[recv.base].kind in ("setlist", "list") and not recv.prefix \
+            and len(args) == 1:
+        USED.add("list.pop(i)")
+        ho = st.heap[recv.base]
+        i = to_z3(args[0])
+        n = ho.shape[0]
+        eng.emit("%s.safety.pop@L%s" % (eng.fn_key.split("::")[-1], node.lineno - eng.fndef.lineno), "safety", st,
+                 z3.And(0 <= i, i < n), node.lineno, guard, note="pop index in range")
+        new = sx.fresh(recv.base + "'pop", ho.arr.sort())
+        j = z3.Int("pj!%d" % next(sx._fresh))
+        st.pc.append(z3.ForAll([j], z3.Select(new, j) == z3.If(j < i, z3.Select(ho.arr, j), z3.Select(ho.arr, j + 1)),
+                               patterns=[z3.Select(new, j)]))
+        st.heap[recv.base] = ho.replace(arr=new, shape=(n - 1,) + tuple(ho.shape[1:]))
+        return PyObj("none")
     if meth == "fill" and isinstance(recv, Ref):
         USED.add("ndarray.fill")
         ho = st.heap[recv.base]
